@@ -346,7 +346,11 @@ def _main(run, tier, seed):
             run.mark("lin:" + "_".join(map(str, h)))
     run.note("linear_wall_s", round(time.time() - t0, 1))
 
-    rejects, rv = tlc.batch_validate("Trace_Session", "Trace_Session", cases, tag="c18")
+    # self-test of the binding: a report id that is not the reference, and an unknown request kind
+    st = [{"id": "selftest-corrupt", "events": [dict(e) for e in cases[-1]["events"]]},
+          {"id": "selftest-unknown", "events": [{"req": 9, "rep": 0, "ch": []}]}]
+    st[0]["events"][-1]["rep"] = 7
+    rejects, rv = tlc.batch_validate("Trace_Session", "Trace_Session", cases + st, tag="c18")
     run.add_mc(rv, "Trace_Session")
     run.add_traces(len(cases))
     run.add_eval(sum(len(c["events"]) for c in cases))
@@ -357,7 +361,14 @@ def _main(run, tier, seed):
         run.divergence("shared-model-data-changed", {"history": [reqs[x - 1][0] for x in m["hist"]],
                                                      "call": v[3], "objects": v[4]})
     failing = []
+    got = {v[1] for v in cc.printed_tuples(rv.raw, "REJECT")}
+    for c in st:
+        if c["id"] not in got:
+            raise tlc.TLCError("binding self-test: %s was not rejected by Trace_Session" % c["id"])
+    run.note("binding_selftest", "%d corrupted traces rejected" % len(st))
     for v in cc.printed_tuples(rv.raw, "REJECT"):
+        if v[1].startswith("selftest"):
+            continue
         cid, clause, at, req, rep = v[1], v[2], v[3], v[4], v[5]
         failing.append((len(meta[cid]["hist"]), at, cid, req))
     # report minimal witnesses first (shortest history, earliest deviating call)
